@@ -25,6 +25,9 @@ type varStore struct {
 
 	predefVarRef map[*runtime.Function]map[*reflect.Value]int16
 
+	// predefGlobals maps a predefined variable to its index in globals.
+	predefGlobals map[*reflect.Value]int16
+
 	// Holds all Scriggo-defined and pre-predefined global variables.
 	globals []Global
 
@@ -38,6 +41,7 @@ func newVarStore(emitter *emitter, indirectVars map[*ast.Identifier]bool) *varSt
 	return &varStore{
 		emitter:               emitter,
 		predefVarRef:          map[*runtime.Function]map[*reflect.Value]int16{},
+		predefGlobals:         map[*reflect.Value]int16{},
 		indirectVars:          indirectVars,
 		scriggoPackageVarRefs: map[*ast.Package]map[string]int16{},
 		closureVars:           map[*runtime.Function]map[string]int16{},
@@ -83,15 +87,19 @@ func (vs *varStore) predefVarIndex(v *reflect.Value, typ reflect.Type, pkg, name
 	if index, ok := vs.predefVarRef[currFn][v]; ok {
 		return index
 	}
-	index := int16(len(vs.globals))
-	g := newGlobal(pkg, name, typ, reflect.Value{})
-	if v.IsValid() {
-		g.Value = *v
+	index, ok := vs.predefGlobals[v]
+	if !ok {
+		index = int16(len(vs.globals))
+		g := newGlobal(pkg, name, typ, reflect.Value{})
+		if v.IsValid() {
+			g.Value = *v
+		}
+		vs.globals = append(vs.globals, g)
+		vs.predefGlobals[v] = index
 	}
 	if vs.predefVarRef[currFn] == nil {
 		vs.predefVarRef[currFn] = map[*reflect.Value]int16{}
 	}
-	vs.globals = append(vs.globals, g)
 	vs.predefVarRef[currFn][v] = index
 	return index
 }
